@@ -1973,6 +1973,109 @@ theorem interval_set (rs : List Rec) (hwf : ∀ r ∈ rs, WFRec r)
   omega
 
 
+
+/-! ### blank-line-separated records -/
+
+theorem lines_blank (k : Nat) (rest : Bytes) :
+    linesAux [] (List.replicate k 10 ++ rest) = List.replicate k [] ++ linesAux [] rest := by
+  induction k with
+  | zero => simp
+  | succ n ih => simp [List.replicate_succ, linesAux, ih]
+
+def recLinesB (p : Rec × Nat) : List Bytes := recLines p.1 ++ List.replicate p.2 []
+
+theorem lines_fileB (rs : List (Rec × Nat)) (h : ∀ p ∈ rs, WFRec p.1) :
+    linesOf (fileOfB rs) = (rs.map recLinesB).flatten := by
+  unfold linesOf
+  induction rs with
+  | nil => simp [fileOfB, linesAux]
+  | cons p rs ih =>
+    obtain ⟨r, k⟩ := p
+    have hr := h (r, k) (by simp)
+    have e : fileOfB ((r, k) :: rs) = (62 :: r.header) ++ 10 :: (wrapBytes r.width r.seq ++ (List.replicate k 10 ++ fileOfB rs)) := by
+      simp [fileOfB, recBytes]
+    rw [e, lines_line [] _ _ (by
+      intro hm
+      simp only [List.mem_cons] at hm
+      cases hm with | inl hm => omega | inr hm => exact hr.header_nl hm)]
+    rw [lines_wrap r.width hr.width_pos r.seq _ hr.seq_nl, lines_blank, ih (fun x hx => h x (by simp [hx]))]
+    simp [recLinesB, recLines]
+
+theorem sum_replicate_zero (k : Nat) : ((List.replicate k ([] : Bytes)).map List.length).sum = 0 := by
+  induction k with
+  | zero => rfl
+  | succ n ih => simp [List.replicate_succ]
+
+theorem sum_replicate_one (k : Nat) : ((List.replicate k ([] : Bytes)).map (fun l => l.length + 1)).sum = k := by
+  induction k with
+  | zero => rfl
+  | succ n ih => simp [List.replicate_succ]
+
+theorem index_fromB (off : Nat) (rs : List (Rec × Nat)) (h : ∀ p ∈ rs, WFRec p.1) :
+    indexLines off (rs.map recLinesB).flatten = specIndexFromB off rs := by
+  induction rs generalizing off with
+  | nil => simp [specIndexFromB]; rw [indexLines]
+  | cons p rs ih =>
+    obtain ⟨r, k⟩ := p
+    have hr := h (r, k) (by simp)
+    obtain ⟨c1, c2, c3, c4⟩ := chunks_props r.width hr.width_pos r.seq hr.seq_marker
+    have hne : chunks r.width r.seq ≠ [] := by
+      rw [chunks_cons r.width hr.width_pos r.seq hr.seq_ne]; simp
+    have hstop : (rs.map recLinesB).flatten = [] ∨
+        ∃ y ys, (rs.map recLinesB).flatten = y :: ys ∧ (fun l => !isHeader l) y = false := by
+      cases rs with
+      | nil => left; rfl
+      | cons p2 rs2 =>
+        right
+        exact ⟨62 :: p2.1.header, chunks p2.1.width p2.1.seq ++ List.replicate p2.2 [] ++ (rs2.map recLinesB).flatten,
+          by simp [recLinesB, recLines], by simp [isHeader]⟩
+    obtain ⟨t1, t2⟩ := takeWhile_append_stop (fun l => !isHeader l) (chunks r.width r.seq ++ List.replicate k []) _
+      (fun x hx => by
+        rcases List.mem_append.mp hx with hx | hx
+        · simp [c1 x hx]
+        · have := List.eq_of_mem_replicate hx
+          subst this; simp [isHeader]) hstop
+    have e : (((r, k) :: rs).map recLinesB).flatten
+        = (62 :: r.header) :: ((chunks r.width r.seq ++ List.replicate k []) ++ (rs.map recLinesB).flatten) := by
+      simp [recLinesB, recLines]
+    rw [e, indexLines]
+    have hhead : ((chunks r.width r.seq ++ List.replicate k []).headD []).length = min r.width r.seq.length := by
+      cases hc : chunks r.width r.seq with
+      | nil => exact absurd hc hne
+      | cons x xs => rw [hc] at c4; simpa using c4
+    simp only [t1, t2, List.map_append, List.sum_append, c2, c3, hhead, sum_replicate_zero, sum_replicate_one,
+      specIndexFromB, List.length_cons, List.drop_succ_cons, List.drop_zero, Nat.add_zero]
+    rw [ih _ (fun x hx => h x (by simp [hx]))]
+    congr 2 <;> omega
+
+/-- **C17.index_rows_blank**: records separated by blank lines (any number of empty lines after any
+record, the last one included; last sequence line short, full or the only one): the built index still
+lists header, TRUE sequence length (the sum of the line lengths, not a product of line count and width),
+offset of the first base, bases per line and bytes per line; the empty lines only move later offsets -/
+theorem index_rows_blank (rs : List (Rec × Nat)) (h : ∀ p ∈ rs, WFRec p.1) :
+    buildIndex (fileOfB rs) = specIndexFromB 0 rs ∧
+    contigLengths (createIndex (fileOfB rs)) = rs.map (fun p => (firstWord p.1.header, p.1.seq.length)) := by
+  have hb : buildIndex (fileOfB rs) = specIndexFromB 0 rs := by
+    unfold buildIndex; rw [lines_fileB rs h, index_fromB 0 rs h]
+  refine ⟨hb, ?_⟩
+  unfold createIndex contigLengths
+  rw [hb, List.map_map]
+  have key : ∀ (off : Nat) (l : List (Rec × Nat)),
+      (specIndexFromB off l).map ((fun r : IdxRow => (firstWord r.name, r.rlen)) ∘ fun r => { r with name := firstWord r.name })
+        = l.map (fun p => (firstWord p.1.header, p.1.seq.length)) := by
+    intro off l
+    induction l generalizing off with
+    | nil => rfl
+    | cons p l ih => obtain ⟨r, k⟩ := p; simp [specIndexFromB, ih, firstWord_idem]
+  exact key 0 rs
+
+example : ∃ rs : List (Rec × Nat), (∀ p ∈ rs, WFRec p.1) ∧ rs.map (·.2) = [2, 0] :=
+  ⟨[(⟨"a d".toList.map Char.toNat, "ACGTACG".toList.map Char.toNat, 5⟩, 2), (⟨"b".toList.map Char.toNat, "TT".toList.map Char.toNat, 60⟩, 0)], by
+    intro p hp
+    simp only [List.mem_cons, List.not_mem_nil, or_false] at hp
+    rcases hp with rfl | rfl <;> exact ⟨by decide, by decide, by decide, by decide, by decide⟩, rfl⟩
+
+
 section Traced
 open Gen.C17
 
